@@ -509,7 +509,7 @@ fn pools() -> Pools {
     let (ce4, ce, c, ce2, shi4, shi, sh) = (s("ㄘㄜˋ"), s("ㄘㄜ"), s("ㄘ"), s("ㄘㄜˊ"), s("ㄕˋ"), s("ㄕ"), s("ㄙ"));
     Pools {
         keys: vec![
-            vec![ce4], vec![ce], vec![c], vec![ce2], vec![shi4], vec![shi],
+            vec![ce4], vec![ce], vec![c], vec![ce2], vec![shi4], vec![shi], vec![], vec![ce4, shi4, ce], vec![c, shi, c],
             vec![ce4, shi4], vec![ce, shi], vec![c, shi], vec![ce4, shi], vec![ce2, shi4], vec![c, sh],
         ],
         texts1: vec!["測", "冊", "a", "é", "𠀀"],
